@@ -46,7 +46,9 @@ FileSeq(S) == IF S = {"f1", "f2"} THEN <<"f1", "f2">> ELSE IF S = {"f1"} THEN <<
 \* what a consumer reads of each of its inputs, in $SRCS order: own files first, then dependencies
 SrcItem(s, f) == [kind |-> "src", f |-> f, c |-> s[f]]
 \* the name under which a consumer sees an input: a source file's name, or a target's output name
-NameOf(item) == IF item.kind = "src" THEN <<"src", item.f>> ELSE <<"out", item.t, item.kind, item.n>>
+NameOf(item) == IF item.kind = "src" THEN <<"src", item.f>>
+                ELSE IF item.kind = "post" THEN <<"post", item.t, IF item.args = <<>> THEN "e" ELSE item.args[1].c>>
+                ELSE <<"out", item.t, item.kind, item.n>>
 RECURSIVE Ideal(_, _, _)
 Inputs(s, ds, t) == [i \in 1..Len(FileSeq(ds[t].files)) |-> SrcItem(s, FileSeq(ds[t].files)[i])]
                     \o [i \in 1..Cardinality(ds[t].deps) |-> Ideal(s, ds, SetSeq(ds[t].deps)[i])]
@@ -70,6 +72,10 @@ Eval(t, d, ins0) ==
                             args |-> IF ins # <<>> /\ ins[1].kind = "src" THEN <<ins[1]>> ELSE <<>>]
     \* the same, but the entry's content also carries the file's content (so the content-only directory hash notices)
     [] d.kind = "dirc"  -> [kind |-> "dirc", t |-> t, n |-> d.on, k |-> d.cmd,
+                            args |-> IF ins # <<>> /\ ins[1].kind = "src" THEN <<ins[1]>> ELSE <<>>]
+    \* a rule WITHOUT declared outputs: its post-build function adds one output per line the command prints; the
+    \* output's NAME carries the first source file's content, its content too (metadata, post-build re-run on a cache hit)
+    [] d.kind = "post"  -> [kind |-> "post", t |-> t, n |-> d.on, k |-> d.cmd,
                             args |-> IF ins # <<>> /\ ins[1].kind = "src" THEN <<ins[1]>> ELSE <<>>]
     [] d.kind = "fg"    -> [kind |-> "group", t |-> t, n |-> d.on, k |-> "-", args |-> ins]
 Ideal(s, ds, t) == Eval(t, ds[t], Inputs(s, ds, t))
@@ -121,6 +127,8 @@ InitDefs ==
   THEN {<<Def("dir", "k0", {"f1"}, {}), Def("cat", "k0", {"f2"}, {1}), Def("cat", "k0", {}, {1, 2})>>}
   ELSE IF Shapes = "dircache"
   THEN {<<Def("dirc", "k0", {"f1"}, {}), Def("cat", "k0", {"f2"}, {1}), Def("cat", "k0", {}, {1, 2})>>}
+  ELSE IF Shapes = "post"
+  THEN {<<Def("post", "k0", {"f1"}, {}), Def("names", "k0", {"f2"}, {1}), Def("cat", "k0", {}, {1, 2})>>}
   ELSE IF Shapes = "rename"
   \* a producer whose output file can be renamed (contents unchanged), a consumer of names, a consumer of contents
   THEN {<<Def("cat", "k0", {"f1"}, {}), Def("names", "k0", {"f2"}, {1}), Def("cat", "k0", {}, {1, 2})>>,
@@ -128,9 +136,9 @@ InitDefs ==
   ELSE {<<Def("cat", "k0", {"f1"}, {}), Def("first", "k0", {"f2"}, {1}), Def("cat", "k0", {}, {1, 2})>>,
         <<Def("txt", "k0", {}, {}), Def("fg", "k0", {"f1"}, {1}), Def("cat", "k0", {"f2"}, {2})>>,
         <<Def("const", "k0", {"f1"}, {}), Def("cat", "k0", {"f1", "f2"}, {}), Def("fg", "k0", {}, {1, 2})>>}
-EditKinds == IF Shapes \in {"dirflaw", "dircache", "rename"} THEN {} ELSE {"cat", "const", "fg"}
+EditKinds == IF Shapes \in {"dirflaw", "dircache", "rename", "post"} THEN {} ELSE {"cat", "const", "fg"}
 \* the exhaustive one-edit configurations request the top target only; the sampled deeper ones also a middle target
-Reqs == IF MaxEdits = 1 \/ Shapes \in {"all-top", "rename", "dircache"} THEN {{3}} ELSE {{3}, {2}}
+Reqs == IF MaxEdits = 1 \/ Shapes \in {"all-top", "rename", "dircache", "post"} THEN {{3}} ELSE {{3}, {2}}
 
 Init == /\ src = [f \in F |-> "c0"] /\ defs \in InitDefs
         /\ out = [t \in T |-> Nil] /\ cache = {} /\ executed = {} /\ edits = 0
@@ -141,17 +149,17 @@ Edit(rec) == /\ Valid(src', defs') /\ edits < MaxEdits /\ edits' = edits + 1 /\ 
              /\ UNCHANGED <<out, cache, executed, last>>
 EditFile == \E f \in F, c \in C : /\ src[f] # c /\ (Shapes = "dircache" => f = "f1") /\ src' = [src EXCEPT ![f] = c] /\ UNCHANGED defs
                                   /\ Edit([act |-> "EditFile", f |-> f, c |-> c])
-EditCmd == \E t \in T, k \in K : /\ Shapes # "dircache" /\ defs[t].cmd # k /\ defs' = [defs EXCEPT ![t].cmd = k] /\ UNCHANGED src
+EditCmd == \E t \in T, k \in K : /\ Shapes # "dircache" /\ (Shapes = "post" => t = 1) /\ defs[t].cmd # k /\ defs' = [defs EXCEPT ![t].cmd = k] /\ UNCHANGED src
                                  /\ Edit([act |-> "EditDef", t |-> t, def |-> defs'[t]])
 EditKind == \E t \in T, kd \in EditKinds :
                /\ defs[t].kind # kd /\ defs' = [defs EXCEPT ![t].kind = kd] /\ UNCHANGED src
                /\ Edit([act |-> "EditDef", t |-> t, def |-> defs'[t]])
 EditFiles == \E t \in T, S \in SUBSET F :
-               /\ Shapes \notin {"dirflaw", "dircache", "rename"} /\ defs[t].files # S
+               /\ Shapes \notin {"dirflaw", "dircache", "rename", "post"} /\ defs[t].files # S
                /\ defs' = [defs EXCEPT ![t].files = S] /\ UNCHANGED src
                /\ Edit([act |-> "EditDef", t |-> t, def |-> defs'[t]])
 EditDeps == \E t \in {3}, S \in SUBSET {1, 2} :
-               /\ Shapes \notin {"dirflaw", "dircache", "rename"} /\ defs[t].deps # S
+               /\ Shapes \notin {"dirflaw", "dircache", "rename", "post"} /\ defs[t].deps # S
                /\ defs' = [defs EXCEPT ![t].deps = S] /\ UNCHANGED src
                /\ Edit([act |-> "EditDef", t |-> t, def |-> defs'[t]])
 \* renaming an output file without changing what is written into it
